@@ -74,7 +74,7 @@ def gen_v1(tier):
     t3s = [[W(3)], [W(3), DR(0)], [SET], [RST], [RDY, W(3)], [SET, W(3)], [W(3), RST], []]
     for init, t1, t2, t3 in itertools.product((0, 1), t1s, t2s, t3s):
         add(init, t1, t2, t3, sched=(1, 2, 2, 1))
-    return thin(out, 8, 16 if tier == "quick" else 150)
+    return thin(out, 8, 16 if tier == "quick" else 100)
 
 
 def gen_v2(tier):
@@ -96,7 +96,7 @@ def gen_v2(tier):
         if any(ops.count(STOP(w)) > 1 for w in (1, 2, 3)):
             continue
         add(init, t1, t2, t3, sched=(1, 2, 2, 1))
-    return thin(out, 8, 14 if tier == "quick" else 150)
+    return thin(out, 8, 14 if tier == "quick" else 100)
 
 
 # ----------------------------------------------------------------------------- shared run/validate
@@ -236,14 +236,14 @@ def gen_pass(tier):
         if any(ops.count(STOP(w)) > 1 for w in (1, 2)):
             continue
         add(t1, t2, t3, sched=(1, 2, 2, 1))
-    return thin(out, 8, 14 if tier == "quick" else 150)
+    return thin(out, 8, 14 if tier == "quick" else 100)
 
 
 def part_pass(ctx):
     scns = gen_pass(ctx.tier)
-    sp, bp, nb = tlc_behaviours(ctx, "pass", "AsyncPass", scns, "PassMon", 500 if ctx.quick else 8000)
+    sp, bp, nb = tlc_behaviours(ctx, "pass", "AsyncPass", scns, "PassMon", 500 if ctx.quick else 6000)
     exe = build_driver(ctx, "pass")
-    run_real(ctx, "pass", exe, std_runs(ctx, sp, bp, nb, len(scns), 30 if ctx.quick else 150, 10 if ctx.quick else 50),
+    run_real(ctx, "pass", exe, std_runs(ctx, sp, bp, nb, len(scns), 30 if ctx.quick else 100, 10 if ctx.quick else 30),
              "event", "PassMon", scns)
 
 
@@ -271,14 +271,14 @@ def gen_auto(tier):
     t3s = [[STOP(1)], [STOP(2)], [SET], [], [SD], [STOP(2), SET], [SET, STOP(1)]]
     for init, t1, t2, t3 in itertools.product((0, 1), t1s, t2s, t3s):
         add(init, t1, t2, t3, sched=(1, 2, 1, 1))
-    return thin(out, 6, 18 if tier == "quick" else 150)
+    return thin(out, 6, 18 if tier == "quick" else 100)
 
 
 def part_auto(ctx):
     scns = gen_auto(ctx.tier)
-    sp, bp, nb = tlc_behaviours(ctx, "auto", "AutoResetEvent", scns, "AutoMon", 500 if ctx.quick else 8000)
+    sp, bp, nb = tlc_behaviours(ctx, "auto", "AutoResetEvent", scns, "AutoMon", 500 if ctx.quick else 6000)
     exe = build_driver(ctx, "auto")
-    run_real(ctx, "auto", exe, std_runs(ctx, sp, bp, nb, len(scns), 30 if ctx.quick else 150, 12 if ctx.quick else 50),
+    run_real(ctx, "auto", exe, std_runs(ctx, sp, bp, nb, len(scns), 30 if ctx.quick else 100, 12 if ctx.quick else 30),
              "event", "AutoMon", scns)
 
 
@@ -325,9 +325,9 @@ def std_runs(ctx, sp, bp, nb, nscn, dfs_cap, rnd_cap):
 def part_manual(ctx, impl):
     module = "EventV1" if impl == "v1" else "EventV2"
     scns = gen_v1(ctx.tier) if impl == "v1" else gen_v2(ctx.tier)
-    sp, bp, nb = tlc_behaviours(ctx, impl, module, scns, "EventMon", 500 if ctx.quick else 8000)
+    sp, bp, nb = tlc_behaviours(ctx, impl, module, scns, "EventMon", 500 if ctx.quick else 6000)
     exe = build_driver(ctx, "event")
-    run_real(ctx, impl, exe, std_runs(ctx, sp, bp, nb, len(scns), 30 if ctx.quick else 150, 10 if ctx.quick else 50),
+    run_real(ctx, impl, exe, std_runs(ctx, sp, bp, nb, len(scns), 30 if ctx.quick else 100, 10 if ctx.quick else 30),
              "event", "EventMon", scns)
 
 
